@@ -458,6 +458,10 @@ func extractC09(c *Ctx) error {
 	if err := c09Facts(c); err != nil {
 		return err
 	}
+	// second round: attestation / pruning / skyway / valset facts (c09b.go)
+	if err := c09Facts2(c); err != nil {
+		return err
+	}
 	return nil
 }
 
